@@ -87,7 +87,7 @@ def nearest(a, b):
     return row_min(length(a), length(b), lambda i, j: absr(a[i] - b[j]))
 
 
-@contract("mir_eval.segment.deviation", props="C01 C02 C04 C06 C14")
+@contract("mir_eval.segment.deviation", props="C01 C02 C04 C06 C14", nonfinite=True)
 def deviation(reference_intervals: ObjT, estimated_intervals: ObjT, trim: Bool = False) -> Tup(Real, Real):
     raises(ValueError, when=not (valid_iv(reference_intervals) and valid_iv(estimated_intervals)), props="C14")
     rb = bounds_of(reference_intervals, trim)
